@@ -478,7 +478,8 @@ def check_real(case, rec):
         rec.close(orc.dense(A) - D, max(1.0, np.abs(D).max()), TOL, "scatter_add", "BiLinearForm.Assemble vs dense sum",
                   api="BiLinearForm.Assemble", **sig)
         if case.get("linear_assemble"):
-            fL = LinearForm(lambda v: 2.0 * v) if dof_n == 1 else LinearForm(lambda v: 2.0 * v.dot(np.ones(dof_n)).reshape(*v.shape[:2], 1))
+            wts = np.arange(1.0, dof_n + 1.0)
+            fL = LinearForm(lambda v: 2.0 * v) if dof_n == 1 else LinearForm(lambda v: (v * wts).sum(axis=-1, keepdims=True))
             Fe = np.array(np.asarray(fL.Integrate_e(field)))
             Dv = cs.scatter_vector(np.zeros(Ndof), g.connect, dof_n, Fe)
             V = fL.Assemble(field)
